@@ -236,10 +236,24 @@ func c01Dispatch(c *eng.Ctx, rec *ssa.Function, rule string, want map[string]str
 // has Path = transitions[i].Path and New = results[i] with the same index.
 func c01FoldResults(c *eng.Ctx, rule string, syn *ssa.Function) {
 	n := 0
-	for _, fn := range eng.WithClosures(syn) {
+	// scan looks for `append(list, &Change{Path: X[i].Path, New: R[i]})` in fn.
+	// via is the call through which fn was reached when the conversion loop
+	// lives in a helper (then X and R are the helper's parameters and the
+	// call's arguments decide what they are).
+	var scan func(fn *ssa.Function, via *ssa.Call)
+	scan = func(fn *ssa.Function, via *ssa.Call) {
 		eng.EachInstr(fn, func(i ssa.Instruction) {
 			call, ok := i.(*ssa.Call)
-			if !ok || eng.CalleeName(call) != "builtin:append" {
+			if !ok {
+				return
+			}
+			if eng.CalleeName(call) != "builtin:append" {
+				// one level of helper: a package function of the controller's package
+				if via == nil {
+					if callee := call.Call.StaticCallee(); callee != nil && callee.Blocks != nil && callee != syn && eng.FuncPkgRel(callee) == syncPkg && callee.Signature.Recv() == nil {
+						scan(callee, call)
+					}
+				}
 				return
 			}
 			el := eng.AppendElems(call)
@@ -259,15 +273,39 @@ func c01FoldResults(c *eng.Ctx, rule string, syn *ssa.Function) {
 				return
 			}
 			n++
+			key := eng.FuncName(fn)
+			site := call.Pos()
 			// pr = X[i].Path ; nr must be R[i] with the same index expression, R a results slice.
 			idx := pr[strings.LastIndex(pr, "[")+1 : strings.LastIndex(pr, "]")]
 			okNew := strings.HasSuffix(nr, "["+idx+"]") && strings.Contains(strings.ToLower(nr), "result") || isIndexOfResults(f["New"], idx)
-			c.Check(rule, "fold:"+eng.FuncName(fn), call.Pos(), okNew, "the ancestor receives the transition's reported result at the same index, not the planned content", "Path="+pr+" New="+nr)
+			var guards []eng.Atom
+			if via != nil {
+				// inside the helper: New must be param[j][idx]; at the call site argument j must be the Transition results
+				okNew = false
+				if u, isU := f["New"].(*ssa.UnOp); isU {
+					if ia, isIA := u.X.(*ssa.IndexAddr); isIA && eng.Render(ia.Index) == idx {
+						if prm, isP := ia.X.(*ssa.Parameter); isP {
+							for j, q := range fn.Params {
+								if q == prm && j < len(via.Call.Args) {
+									ar := eng.Render(via.Call.Args[j])
+									okNew = strings.Contains(ar, "Transition(") || strings.Contains(strings.ToLower(ar), "results")
+								}
+							}
+						}
+					}
+				}
+				key = eng.FuncName(via.Parent()) + "→" + eng.FuncName(fn)
+				site = via.Pos()
+				guards = append(append([]eng.Atom(nil), eng.Guards(call)...), eng.Guards(via)...)
+			} else {
+				guards = eng.Guards(call)
+			}
+			c.Check(rule, "fold:"+key, site, okNew, "the ancestor receives the transition's reported result at the same index, not the planned content", "Path="+pr+" New="+nr)
 			// Every transition is folded: inside the closure the append is
 			// conditional only on the loop bound and on the transition call's error.
 			extra := 0
 			var extraAtom string
-			for _, a := range eng.Guards(call) {
+			for _, a := range guards {
 				isLoop := strings.Contains(a.Expr, " < len(")
 				isErr := strings.HasSuffix(a.Expr, " == nil)") && (strings.Contains(a.Expr, "TransitionErr") || strings.Contains(a.Expr, "Transition("))
 				if !isLoop && !isErr {
@@ -275,9 +313,12 @@ func c01FoldResults(c *eng.Ctx, rule string, syn *ssa.Function) {
 					extraAtom = a.String()
 				}
 			}
-			c.Check(rule, "fold-unconditional:"+eng.FuncName(fn), call.Pos(), extra == 0, "every transition's result is folded into the ancestor (no result is skipped)", extraAtom)
+			c.Check(rule, "fold-unconditional:"+key, site, extra == 0, "every transition's result is folded into the ancestor (no result is skipped)", extraAtom)
 			c.Analysed(fn)
 		})
+	}
+	for _, fn := range eng.WithClosures(syn) {
+		scan(fn, nil)
 	}
 	if n < 2 {
 		c.Problem(rule, "expected two result-folding appends (alpha, beta) in synchronize, found %d", n)
